@@ -480,9 +480,10 @@ impl PartialEq for JsStr<'_> {
 impl PartialEq<str> for JsStr<'_> {
     #[inline]
     fn eq(&self, other: &str) -> bool {
+        // NOTE: both sides are compared as sequences of UTF-16 code units.
         match self.variant() {
-            JsStrVariant::Latin1(v) => v == other.as_bytes(),
-            JsStrVariant::Utf16(v) => other.encode_utf16().zip(v).all(|(a, b)| a == *b),
+            JsStrVariant::Latin1(v) => other.encode_utf16().eq(v.iter().map(|b| u16::from(*b))),
+            JsStrVariant::Utf16(v) => other.encode_utf16().eq(v.iter().copied()),
         }
     }
 }
